@@ -53,7 +53,12 @@ def norm(v):
     if h == 'cl': return ('text', tuple(int(x) for x in v[1:]))
     if h == 'bl': return ('blob', tuple(int(x) for x in v[1:]))
     if h == 's': return ('sym', v[1])
-    if h == 'syl': return ('syl', tuple(norm(x) for x in v[1:]))
+    if h == 'syl':
+        parts = []
+        for x in v[1:]:
+            nx = norm(x)
+            parts += list(nx[1]) if nx[0] == 'syl' else [nx]      # a symbol list merged into a symbol list is one flat list
+        return ('syl', tuple(parts))
     if h == 'p': return ('pair', norm(v[1]), norm(v[2]))
     if h == 'l': return ('seq', tuple(norm(x) for x in v[1:]))
     if h == 'cat': return ('seq', tuple(flat(v[1]) + flat(v[2])))
@@ -121,6 +126,21 @@ def run(ctx):
             add(st, 'NotEqual', v, m, 'mutant-ne')
             w = rnd.choice(vals)
             add(st, 'Equal', v, w, 'pair'); add(st, 'Equal', w, v, 'pair-sym')
+        # symbol lists MERGED from symbol lists of unequal lengths (every split of 2..6 parts, both nestings) against the flat list
+        # of the same parts and against near misses — the second operand is allocated after the merge
+        for n_ in range(2, 7):
+            parts = ['(s %d)' % (5 + k) for k in range(n_)]
+            flat_ = '(syl ' + ' '.join(parts) + ')'
+            miss = '(syl ' + ' '.join(parts[:-1] + ['(s 99)']) + ')'
+            for cut in range(1, n_):
+                l_ = parts[0] if cut == 1 else '(syl ' + ' '.join(parts[:cut]) + ')'
+                r_ = parts[cut] if n_ - cut == 1 else '(syl ' + ' '.join(parts[cut:]) + ')'
+                merged = f'(syl {l_} {r_})'
+                for st in opgen.STORES:
+                    for instr in ('Equal', 'NotEqual'):
+                        add(st, instr, merged, flat_, 'merged-symlist'); add(st, instr, flat_, merged, 'merged-symlist')
+                        add(st, instr, merged, miss, 'merged-symlist'); add(st, instr, merged, merged, 'merged-symlist')
+                        add(st, instr, f'(p {merged} (i 1))', f'(p {flat_} (i 1))', 'merged-symlist')
         # numbers that are different but close: neighbouring doubles (1 ulp apart), tiny magnitudes, 0.1 + 0.2 against 0.3, an integer
         # against the doubles next to it — as scalars and as leaves of pairs, lists and concatenations (equality is exact)
         import struct as _st
